@@ -402,7 +402,7 @@ ParStart(t) ==
                         ELSE task[u]]
      /\ nx' = nx + Len(hs)
   /\ cur' = NoTask
-  /\ UNCHANGED <<nev, ev, q, unf, shut, hist, running, idle, semv, depth, lockq, nact, o>>
+  /\ UNCHANGED <<nev, ev, q, unf, shut, hist, running, idle, semv, depth, lockq, nact, xh, o>>
 XStart(k) ==      \* first step of an execute_handler task
   /\ cur = NoTask /\ k <= nx /\ task[XT(k)].pc = "xnew" /\ FirstBorn(XT(k))
   /\ task' = [task EXCEPT ![XT(k)].pc = "pb"]
